@@ -5,7 +5,7 @@
     name for (a record outside the model's description, [Hang]); the bridge lemma keeps them apart.
     Hand-written. *)
 From Coq Require Import ZArith Bool List.
-From TucModel Require Import Base.Bytes Model.Bounds Model.Scan Model.Regex Model.Opt Model.CutStr Model.CutLines Tie.RsPrelude.
+From TucModel Require Import Base.Bytes Model.Bounds Model.Scan Model.Utf8 Model.Regex Model.Opt Model.CutStr Model.CutLines Tie.RsPrelude.
 Import ListNotations.
 
 Definition of_outcome (x : outcome) : rs (option unit * bytes) :=
@@ -20,3 +20,8 @@ Definition model_lines_forward (stdin : bytes) (o : opt) : rs (option unit * byt
   of_outcome (fwd_lines o (lines_of (o_eol o) stdin) (items (o_bounds o)) false 0 []).
 Definition model_lines_buffered (stdin : bytes) (o : opt) : rs (option unit * bytes) :=
   match cut_lines_buffered o stdin with Some x => of_outcome x | None => RsPrelude.Panic end.
+
+(** [std::str::from_utf8] and [str::strip_suffix(char)] for an ASCII character *)
+Definition from_utf8 (b : bytes) : option bytes := if Utf8.utf8_valid b then Some b else None.
+Definition strip_suffix_byte (c : byte) (s : bytes) : option bytes :=
+  match rev s with x :: r => if N.eqb x c then Some (rev r) else None | [] => None end.
